@@ -9,7 +9,7 @@ VARIABLES tokens, now, replies, last, hist, done, focus
 
 MCPorts == {1001, 1002, 40000}
 L == INSTANCE Limiter WITH Svcs <- MCSvcs, IPs <- MCIPs, Ports <- MCPorts,
-                           Burst <- 4, Q <- 2, Steps <- MCSteps, MaxT <- 4
+                           Burst <- 4, Q <- 2, Steps <- MCSteps, MaxT <- 4, Deviations <- {}
 
 \* ---- generation: request-only behaviours (real time does not advance in a replay)
 \* each scenario concentrates on 1..2 services and 1..2 sources so that buckets run dry
